@@ -361,6 +361,7 @@ func (l *FakeListener) Addr() net.Addr { return fakeAddr("listener:" + l.Name) }
 type FakePacketConn struct {
 	Name       string
 	In         [][]byte
+	InErr      error // returned once by ReadFrom when the input is exhausted
 	Written    [][]byte
 	WrittenTo  []string
 	CloseCalls int
@@ -379,10 +380,15 @@ func (c *FakePacketConn) Feed(b []byte) {
 
 // ReadFrom implements net.PacketConn.
 func (c *FakePacketConn) ReadFrom(p []byte) (int, net.Addr, error) {
-	vmc.Await("readfrom "+c.Name, func() bool { return c.closed || len(c.In) > 0 })
+	vmc.Await("readfrom "+c.Name, func() bool { return c.closed || len(c.In) > 0 || c.InErr != nil })
 	defer vmc.EnvEvent(&c.O, 2)
 	if c.closed {
 		return 0, nil, ErrClosed
+	}
+	if len(c.In) == 0 {
+		err := c.InErr
+		c.InErr = nil
+		return 0, nil, err
 	}
 	n := copy(p, c.In[0])
 	c.In = c.In[1:]
